@@ -3,6 +3,7 @@ package main
 // generators for the revocation properties C04 C05 C06 C10 C11 C12
 
 import (
+	"strings"
 	"fmt"
 	"math/big"
 	"math/rand"
@@ -130,6 +131,7 @@ func genC05(r *Runner) {
 			cases = append(cases, one(crlLevel(0, seq), 2, fmt.Sprintf("seq%d", n)))
 		}
 	}
+	cases = append(cases, crlSchemeFaultCases([][]string{nil})...)
 	// freshest-CRL pointer in the certificate with pairs
 	for _, seq := range sequences([]string{"clean", "delta-ok", "delta-lists-cert", "fetch-error"}, 2) {
 		l := crlLevel(0, seq)
@@ -329,6 +331,11 @@ func genC10(r *Runner) {
 // ---- C11 ------------------------------------------------------------------------------------
 
 var c11Ocsp = []string{"good", "revoked", "unknown", "transport-error", "good-expired", "good-unrelated-key"}
+
+// every way an OCSP exchange can be inconclusive (one representative per error class the code distinguishes, and then some)
+var c11Inconclusive = []string{"unknown", "timeout", "transport-error", "http-404", "http-500", "err-unauthorized", "err-malformed", "err-internal", "err-trylater",
+	"err-sigrequired", "empty-body", "garbage", "truncated", "oversize", "body-read-error", "good-expired", "good-no-nextupdate", "good-unrelated-key", "good-other-serial",
+	"good-critext", "good-delegate-noeku", "revoked-expired", "good-thisupdate-future"}
 var c11Crl = []string{"clean", "lists-cert", "expired", "fetch-error"}
 
 func genC11(r *Runner) {
@@ -357,6 +364,17 @@ func genC11(r *Runner) {
 					}
 				}
 			}
+		}
+	}
+	// every inconclusive class x what the CRL says: the fallback must happen for each of them, one and two responders
+	for _, ob := range c11Inconclusive {
+		for _, kb := range []string{"clean", "lists-cert", "fetch-error"} {
+			l := levelSpec{ocspURLs: urlsN(ocspURL, 0, 1), ocspBeh: []string{ob}, crlURLs: urlsN(crlURL, 0, 1), crlBeh: []string{kb}}
+			cases = append(cases, one(l, 2, "inconclusive-then-crl"))
+			l2 := levelSpec{ocspURLs: urlsN(ocspURL, 0, 2), ocspBeh: []string{ob, ob}, crlURLs: urlsN(crlURL, 0, 1), crlBeh: []string{kb}}
+			cases = append(cases, one(l2, 2, "inconclusive-twice-then-crl"))
+			l3 := levelSpec{ocspURLs: urlsN(ocspURL, 0, 2), ocspBeh: []string{ob, "timeout"}, crlURLs: urlsN(crlURL, 0, 1), crlBeh: []string{kb}}
+			cases = append(cases, one(l3, 2, "inconclusive-and-timeout-then-crl"))
 		}
 	}
 	// chains of 2..4 certificates, each with its own sources
@@ -454,6 +472,32 @@ var c06OcspFaults = []string{"transport-error", "timeout", "http-404", "http-500
 	"good", "revoked", "good-expired"}
 var c06CrlFaults = []string{"fetch-error", "expired", "wrong-signer", "no-nextupdate", "clean", "lists-cert"}
 
+
+// crlSchemeFaultCases: distribution points that are not plain http (the fetcher refuses them: a failed download like any other), alone,
+// together, next to a good one — for each of the given OCSP situations; through the scripted fetcher and through the real HTTPFetcher
+func crlSchemeFaultCases(ocspSituations [][]string) []chainCase {
+	var cases []chainCase
+	for _, us := range [][]string{{"ldap://d.test/cn=list"}, {"https://d.test/l.crl"}, {"ftp://d.test/l.crl"}, {"ldap://d.test/cn=list", "https://d.test/l.crl"},
+		{"ldap://d.test/cn=a", "ldaps://d.test/cn=b", "ftp://d.test/c"}, {"ldap://d.test/cn=list", crlURL(0, 0)}, {crlURL(0, 0), "ldap://d.test/cn=list"}, {"HTTP://d.test/L.crl"},
+		{":bad"}, {"d.test/l.crl"}, {"http://d.test/%zz"}} {
+		for _, ob := range ocspSituations {
+			ks := make([]string, len(us))
+			for i, u := range us {
+				ks[i] = "fetch-error"
+				if strings.HasPrefix(strings.ToLower(u), "http://") && !strings.Contains(u, "%zz") {
+					ks[i] = "clean"
+				}
+			}
+			l := levelSpec{ocspURLs: urlsN(ocspURL, 0, len(ob)), ocspBeh: ob, crlURLs: us, crlBeh: ks}
+			cases = append(cases, one(l, 2, "crl-scheme-fault"))
+			c := one(l, 2, "crl-scheme-fault-real-fetcher")
+			c.realFetcher = true
+			cases = append(cases, c)
+		}
+	}
+	return cases
+}
+
 func genC06(r *Runner) {
 	quick := tier() == "quick"
 	rng := newRand(6)
@@ -487,6 +531,7 @@ func genC06(r *Runner) {
 			cases = append(cases, c)
 		}
 	}
+	cases = append(cases, crlSchemeFaultCases([][]string{nil, {"http-500"}, {"timeout"}, {"unknown"}, {"good"}})...)
 	// chains of 2..4: faults on one certificate, genuine answers on the others (isolation)
 	nMulti := 600
 	if !quick {
